@@ -28,7 +28,8 @@ ASSUMPTIONS = [
     'are outside the alphabet; font-relative units (em, ex) excluded',
     'length registers are assigned with the primitive form \\zzL=1in\\relax (plasTeX\'s \\setlength is a no-op, outside the anchor)',
     'visible text is compared with whitespace removed',
-    'tree cases marked "session" (depth 3 in the quick tier, depth 4 in the thorough tier) run as consecutive \\ifthenelse of '
+    'tree cases marked "session" (quick: the trees of depth exactly 3 over 4 leaf classes; thorough: all trees of depth <= 4 '
+    'over 2 leaf classes) run as consecutive \\ifthenelse of '
     'one document per block, each observed on its own output fragment; after the evaluator\'s IndexError the input stack is '
     'cleared and \\( \\) re-enabled, after any other exception or a timeout a new document is started; every candidate '
     'violation is re-judged in a fresh isolated document.  All other cases (atoms, spellings, nested, loops, trees of depth <= 2 '
@@ -546,9 +547,11 @@ def _run_block(block, rep):
                 run_case(rep, case)
                 rep.count('nested_cases')
     elif tag == 'T':
-        _, nleaf, depth, section, lo, hi, mode, seed = block
+        _, nleaf, depth, section, lo, hi, mode, min_depth, seed = block
         session = Session() if mode == 'session' else None
         for idx, t in iter_section(nleaf, depth, section, lo, hi):
+            if min_depth and M.depth_of(t) < min_depth:
+                continue                # enumerated by the isolated blocks of the same leaf classes
             tree, ids = positional(t)
             atoms = pick_atoms(nleaf, ids, idx, seed)
             nops = M.n_operators(M.tokens(tree))
@@ -612,13 +615,14 @@ def run(tier, seed, rep):
               'nested': {'outer_trees': nN, 'inner_trees': nN}}
     # part T: "isolated" = one fresh document per case; "session" = consecutive conditionals of one document
     iso_depth = 2 if quick else 3
-    blocks += tree_blocks('T', 4, iso_depth, ('isolated', seed), 600)
-    bounds['trees_isolated'] = {'leaf_classes': 4, 'depth': iso_depth, 'trees': M.count(4, iso_depth)[0]}
-    blocks += tree_blocks('T', 4, 3, ('session', seed), 600)
-    bounds['trees_session'] = [{'leaf_classes': 4, 'depth': 3, 'trees': M.count(4, 3)[0]}]
-    if not quick:
-        blocks += tree_blocks('T', 2, 4, ('session', seed), 6000)
-        bounds['trees_session'].append({'leaf_classes': 2, 'depth': 4, 'trees': M.count(2, 4)[0]})
+    blocks += tree_blocks('T', 4, iso_depth, ('isolated', 0, seed), 600)
+    bounds['trees_isolated'] = {'leaf_classes': 4, 'depth': '<= %d' % iso_depth, 'trees': M.count(4, iso_depth)[0]}
+    if quick:
+        blocks += tree_blocks('T', 4, 3, ('session', 3, seed), 600)
+        bounds['trees_session'] = {'leaf_classes': 4, 'depth': '= 3', 'trees': M.count(4, 3)[0] - M.count(4, 2)[0]}
+    else:
+        blocks += tree_blocks('T', 2, 4, ('session', 0, seed), 6000)
+        bounds['trees_session'] = {'leaf_classes': 2, 'depth': '<= 4', 'trees': M.count(2, 4)[0]}
     # part W
     wcfg = [(6, 2)] if quick else [(6, 2), (3, 3)]
     bounds['whiledo'] = []
@@ -635,6 +639,6 @@ def run(tier, seed, rep):
     complete = not rep.counters.get('blocks_skipped_after_violations') and \
         not rep.counters.get('block_cut_short_after_violations')
     return {'exhaustive': complete, 'bounds': bounds, 'blocks': len(blocks),
-            'floors': {'evaluations': 150000 if quick else 3000000, 'then_taken': 20000, 'else_taken': 20000,
+            'floors': {'evaluations': 150000 if quick else 3500000, 'then_taken': 20000, 'else_taken': 20000,
                        'shape_not_after_operator': 10000, 'shape_redundant_group': 10000,
                        'loop_iterations_6': 50, 'loop_iterations_0': 50, 'spelling_cases': 2000}}
